@@ -36,7 +36,7 @@ COMPONENTS = {
     "simulated": ["Dask executor", "storage (SimFS): listing order, latency, store mode", "uuid4"],
 }
 EXPECTED_PROBES = ["writer_to_parquet", "writer_pack", "ge_11_partitions", "read_list",
-                   "read_list_unsorted", "rewrite_after_filter",
+                   "read_list_unsorted", "rewrite_after_filter", "one_axis_reversed",
                    "read_glob", "bounds_kw", "geometry_kw", "box_touches_partition_extent",
                    "box_disjoint_from_all", "partition_with_undefined_extent", "pruned_some",
                    "end_to_end_cx"]
@@ -71,7 +71,7 @@ def cases(tier, base_seed):
                           "bounds": rng.choice(("none", "box", "box", "aligned", "aligned",
                                                 "disjoint")),
                           "box": gen.gen_box(rng), "pick": rng.getrandbits(16),
-                          "reverse": rng.random() < 0.3})
+                          "reverse": rng.choice((0, 0, 0, 1, 2, 3))})   # bit0: x ends, bit1: y ends
         rewrite = {"mod": rng.choice((2, 3)), "rem": rng.randint(0, 1)} \
             if rng.random() < 0.35 else None
         yield {"seed": seed, "frame": spec, "writes": writes, "reads": reads, "rewrite": rewrite,
@@ -253,7 +253,16 @@ def _drive(case, root, fs, probes, sig):
         elif r["bounds"] == "disjoint":
             box = [100.0, 100.0, 120.0, 130.0]
             probes["box_disjoint_from_all"] = 1
-        qbox = [box[2], box[3], box[0], box[1]] if r["reverse"] else list(box)
+        rv = int(r["reverse"]) if r["reverse"] is not True else 3
+        qbox = list(box)
+        if rv & 1:
+            qbox[0], qbox[2] = qbox[2], qbox[0]      # corners given in another order:
+        if rv & 2:
+            qbox[1], qbox[3] = qbox[3], qbox[1]      # each axis may be reversed on its own
+        if rv:
+            probes["reversed_corners"] = 1
+        if rv in (1, 2):
+            probes["one_axis_reversed"] = 1
         sig["bounds_mode"] = r["bounds"]
         probes["bounds_kw"] = 1
         keep = [i for i, e in enumerate(exts[active]) if _overlaps(e, box)]
@@ -361,7 +370,7 @@ def shrink_candidates(case):
             yield d
         if r["reverse"]:
             d = copy.deepcopy(c)
-            d["reads"][i]["reverse"] = False
+            d["reads"][i]["reverse"] = 0
             yield d
     if len(c["frame"]["cols"]) > 1:
         used = {r["geometry"] for r in c["reads"]}
